@@ -59,7 +59,10 @@ def osstr_nontrivial(case, impl):
 
 def gen_osstr(tier, rng):
     alpha = [0x61, 0x3D, 0x2D, 0xC3, 0xA9, 0xFF]
-    needles = [b"", b"=", b"a", b"==", b"a=", b"=a", "é".encode(), b"-", b"--", b"aa", b"a=a"]
+    # needles of >= 3 bytes whose proper prefix overlaps itself ("aa=", "==a", "--a", "aab"): a search that skips
+    # past a failed partial match misses the occurrence starting inside it ("aaa=".find("aa=") = 1)
+    needles = [b"", b"=", b"a", b"==", b"a=", b"=a", "é".encode(), b"-", b"--", b"aa", b"a=a",
+               b"aa=", b"==a", b"--a", b"aab", b"-->", b"a-a-"]
     maxlen = 4 if tier == "quick" else 6
     cases = []
     for L in range(maxlen + 1):
